@@ -70,6 +70,10 @@ def _sweep_job(a):
     return {"e": "Sweep", "id": "sweep|%s|%s|%x" % (enc, where, lo), "enc": enc, "lo": lo, "hi": hi, "where": where, "mismatch": mism}
 
 
+COMMUTE_CFGS = ["", "indent_columns=3\nindent_with_tabs=0\nalign_right_cmt_span=3\ncode_width=60\ncmt_width=50\n",
+                "utf8_force=true\nutf8_bom=remove\n", "utf8_force=true\nutf8_bom=add\n"]
+
+
 def _commute_job(a):
     unc, tmp, i, jid, text, lang, ext, cfgtext = a
     cfg = os.path.join(tmp, "cm%d.cfg" % i)
@@ -87,9 +91,13 @@ def _commute_job(a):
             t = decode_out(so)
         except UnicodeDecodeError:
             t = "<undecodable %s>" % enc
-        # the encoding of the output must be the encoding of the input
+        # the encoding of the output must be the encoding of the input - unless utf8_force asks for UTF-8, where utf8_bom decides the mark
         codec, bom = ENC[enc]
-        okenc = so.startswith(bom) if bom else not so.startswith((b"\xef\xbb\xbf", b"\xff\xfe", b"\xfe\xff"))
+        if "utf8_force=true" in cfgtext:
+            want = b"\xef\xbb\xbf" if "utf8_bom=add" in cfgtext else b""
+            okenc = so.startswith(want) if want else not so.startswith((b"\xef\xbb\xbf", b"\xff\xfe", b"\xfe\xff"))
+        else:
+            okenc = so.startswith(bom) if bom else not so.startswith((b"\xef\xbb\xbf", b"\xff\xfe", b"\xfe\xff"))
         ids.append(hashlib.sha1(t.encode("utf-8", "surrogatepass")).hexdigest()[:12] + ("" if okenc else "!enc"))
     os.unlink(cfg)
     return {"e": "Commute", "id": "commute|%s" % jid, "ids": ids}
@@ -175,8 +183,8 @@ def run(ctx):
         texts.append(("corpus|" + os.path.relpath(c.inp, os.path.join(corpus.REPO, "tests/input")), t, lang, os.path.splitext(c.inp)[1] or ".c"))
         k += 1
     for i, (jid, t, lang, ext) in enumerate(texts):
-        for ci, cfgt in enumerate(["", "indent_columns=3\nindent_with_tabs=0\nalign_right_cmt_span=3\ncode_width=60\ncmt_width=50\n"]):
-            if quick and ci == 1 and jid.startswith("corpus"):
+        for ci, cfgt in enumerate(COMMUTE_CFGS):
+            if quick and ci in (1, 3) and jid.startswith("corpus"):
                 continue
             cj.append((unc, tmp, len(cj), "%s|cfg%d" % (jid, ci), t, lang, ext, cfgt))
     evs += pmap_proc(_commute_job, cj, nproc=14)
@@ -191,7 +199,7 @@ def run(ctx):
             ctx.error("EncodingTrace: trace not consumed to the end")
         ctx.cov["traces_validated_against_impl"] = len(evs)
         byid = {e["id"]: e for e in evs}
-        tx = {"%s|cfg%d" % (jid, ci): (t, lang, ext) for (jid, t, lang, ext) in texts for ci in (0, 1)}
+        tx = {"%s|cfg%d" % (jid, ci): (t, lang, ext) for (jid, t, lang, ext) in texts for ci in (0, 1, 2, 3)}
         for rep in rt.emitted:
             e = byid[rep["id"]]
             for b in rep["bad"]:
@@ -247,8 +255,7 @@ def replay(path):
             obs.write(os.path.join(d, "sweep.cfg"), "")
             print(ev)
             return 0 if ev["mismatch"] == -1 else 1
-        ev = _commute_job((unc, d, 0, "replay", r["text"], r["lang"], r["ext"], "" if r["cfg"] == "cfg0" else
-                           "indent_columns=3\nindent_with_tabs=0\nalign_right_cmt_span=3\ncode_width=60\ncmt_width=50\n"))
+        ev = _commute_job((unc, d, 0, "replay", r["text"], r["lang"], r["ext"], COMMUTE_CFGS[int(r["cfg"][3:])]))
         print(ev)
         return 0 if len(set(ev["ids"])) == 1 else 1
     finally:
